@@ -59,6 +59,9 @@ func (in *Interp) constValue(c *ssa.Const) Value {
 func (in *Interp) unop(instr *ssa.UnOp, x Value) Value {
 	switch instr.Op {
 	case token.MUL:
+		if sp, ok := x.(*SymPtr); ok {
+			return in.loadSym(sp)
+		}
 		return in.load(x.(*Value))
 	case token.ARROW:
 		ch := x.(*Chan)
@@ -287,7 +290,12 @@ func (in *Interp) valueEq(a, b Value) *sym.Term {
 	case complex128:
 		return sym.Bool(a == b.(complex128))
 	case *Value:
+		if sp, ok := b.(*SymPtr); ok {
+			return sym.Bool(a == in.ptr(sp))
+		}
 		return sym.Bool(a == b.(*Value))
+	case *SymPtr:
+		return in.valueEq(in.ptr(a), b)
 	case *Chan:
 		return sym.Bool(a == b.(*Chan))
 	case *Map:
